@@ -4,6 +4,7 @@ import (
 	"encoding/binary"
 	"errors"
 	"fmt"
+	"strings"
 	"testing"
 
 	"github.com/hashicorp/raft"
@@ -46,6 +47,9 @@ type Mutation struct {
 	// divergent range, a head compaction removes everything up to and including the range's first
 	// index. Every entry was read, so the divergence must still be reported as a checksum mismatch.
 	CompactAfterRead bool `json:"compactAfterRead,omitempty"`
+	// RestartMid (follower, at rest): the follower's middleware is restarted after it has stored
+	// part of the window, so it has no written checksum for the range and verifies by reading back
+	RestartMid bool `json:"restartMid,omitempty"`
 }
 
 type ClusterCase struct {
@@ -299,12 +303,21 @@ func (s *sim) settle(n *Node) *common.Failure {
 	return nil
 }
 
+// blamesInflight: the report says the node wrote something other than what the leader
+// checksummed - by its sums, or in so many words.
+func blamesInflight(r verifier.VerificationReport) bool {
+	if r.WrittenSum != 0 && r.WrittenSum != r.ExpectedSum {
+		return true
+	}
+	return r.Err != nil && strings.Contains(r.Err.Error(), "in-flight corruption")
+}
+
 func (s *sim) judge(n *Node, r verifier.VerificationReport) *common.Failure {
 	s.reports++
 	n.Delivered++
 	var cm verifier.ErrChecksumMismatch
 	if errors.As(r.Err, &cm) {
-		if r.WrittenSum != 0 && r.WrittenSum != r.ExpectedSum {
+		if blamesInflight(r) {
 			n.MismatchWritten++
 		} else {
 			n.MismatchRead++
@@ -342,7 +355,7 @@ func (s *sim) judge(n *Node, r verifier.VerificationReport) *common.Failure {
 		if !isMismatch {
 			return common.Failf("divergence-missed/"+s.c.Mut.Mode+"/"+s.c.Mut.Field, "node %d holds range %v with entry %d altered (%s, %s) but the report says Err=%v (written=%x read=%x expected=%x)", n.ID, r.Range, s.mutIdx, s.c.Mut.Mode, s.c.Mut.Field, r.Err, r.WrittenSum, r.ReadSum, r.ExpectedSum)
 		}
-		if r.WrittenSum != 0 && r.WrittenSum != r.ExpectedSum && !s.inflight[n.ID][s.mutIdx] {
+		if blamesInflight(r) && !s.inflight[n.ID][s.mutIdx] {
 			return common.Failf("wrong-blame-inflight", "node %d: report for %v blames in-flight corruption but the node was handed exactly the leader's entries (mutation was %s)", n.ID, r.Range, s.c.Mut.Mode)
 		}
 		return nil
@@ -372,7 +385,7 @@ func (s *sim) judge(n *Node, r verifier.VerificationReport) *common.Failure {
 	if r.Err != nil {
 		sig := "false-alarm"
 		if isMismatch {
-			if r.WrittenSum != 0 && r.WrittenSum != r.ExpectedSum {
+			if blamesInflight(r) {
 				sig = "false-alarm/inflight"
 			} else {
 				sig = "false-alarm/storage"
